@@ -90,12 +90,7 @@ Definition decision_exact (kq : list Q) (a : list Q) (rho : Q) : Q := Qsub' (Qdo
 Definition decision_close (kq a : list Q) (rho d tol : Q) : bool :=
   Qleb (Qabs' (Qsub' d (decision_exact kq a rho))) tol.
 
-(** the kernel matrix is symmetric *)
-Fixpoint colhd (M : list (list Q)) : list Q := match M with [] => [] | r :: M' => hd 0 r :: colhd M' end.
-Definition symmetric_b (n : nat) (M : list (list Q)) : bool :=
-  forallb (fun i => forallb (fun j => Qeq_bool (nth j (nth i M []) 0) (nth i (nth j M []) 0)) (seq 0 n)) (seq 0 n).
-
-(* recursive form of the same test (first row against first column, then the trailing block); it also
+(** the kernel matrix is symmetric: first row against first column, then the trailing block; the test also
    forces the matrix to be n x n *)
 Definition nonnil {A} (l : list A) : bool := match l with [] => false | _ => true end.
 Fixpoint symb (n : nat) (M : list (list Q)) : bool :=
